@@ -33,6 +33,7 @@ func genPolicy(s *Stream, p *AttemptPlan) {
 	p.LogYield = s.Chance(1, 3)
 	p.DebugYield = s.Chance(1, 6)
 	p.ForeignCtx = s.Chance(1, 4)
+	p.SkipErrorCalls = s.Chance(1, 10) // a caller that goes straight to the next Stream call
 }
 
 func pickStart(s *Stream, h *History, atUnitBoundary bool) Pos {
@@ -76,6 +77,7 @@ func genScenarioC01(t *Tape, thorough bool) *Scenario {
 	hs := t.S("hist")
 	o := baseOpts()
 	o.Prof.AllowJSON = true
+	o.TableIDReuse = t.S("cfg").Chance(1, 3)
 	if thorough {
 		o.WideTables = true
 		o.MaxUnits = 12
@@ -184,6 +186,7 @@ func genScenarioC08(t *Tape, thorough bool) *Scenario {
 	hs := t.S("hist")
 	o := baseOpts()
 	o.MaxUnits = 8
+	o.UnitWeights[uTxRollback] = 2
 	o.Prof.ZeroTSPct = 50
 	o.Prof.Kinds = []colKind{kBlob, kVarchar, kChar, kTimestampOld, kTimestamp2, kLong, kDecimal, kBit, kSet, kGeometry, kDatetime2, kYear, kTime2, kDate, kEnum, kDouble}
 	o.Prof.AllowJSON = true
@@ -306,6 +309,42 @@ func invalidPayloadRaw(s *Stream, h *History) []byte {
 		}
 		return append(pre, e...)
 	}
+	if s.Chance(1, 6) {
+		// the length field is the real length with one byte copied over another,
+		// two bytes swapped or one bit flipped; a third of these are >= 64 KiB so
+		// that three of the four length bytes are in play
+		n := 19 + s.N(300)
+		switch s.N(3) {
+		case 1:
+			n = 256 + s.N(2000)
+		case 2:
+			n = 65536 + s.N(6000) + 256*s.N(3)
+		}
+		p := s.Bytes(n)
+		L := [4]byte{byte(n), byte(n >> 8), byte(n >> 16), byte(n >> 24)}
+		for tries := 0; tries < 8; tries++ {
+			M := L
+			switch s.N(3) {
+			case 0:
+				i, j := s.N(4), s.N(4)
+				M[i] = L[j]
+			case 1:
+				i, j := s.N(4), s.N(4)
+				M[i], M[j] = L[j], L[i]
+			case 2:
+				M[s.N(4)] ^= 1 << uint(s.N(8))
+			}
+			if M != L {
+				L = M
+				break
+			}
+		}
+		if L == [4]byte{byte(n), byte(n >> 8), byte(n >> 16), byte(n >> 24)} {
+			L[3] ^= 1
+		}
+		p[9], p[10], p[11], p[12] = L[0], L[1], L[2], L[3]
+		return p
+	}
 	switch s.Weighted(2, 3, 3, 3, 2, 2, 2, 1) {
 	case 0: // empty event
 		p = []byte{}
@@ -380,6 +419,8 @@ func fillFault(s *Stream, h *History, kind stopKind, at int, p *AttemptPlan) {
 	case stopHandlerErr, stopMapperErr, stopMapperMiscount:
 		p.CallIndex = 1 + at
 		p.MiscountDelta = []int{1, -1, 2, -2, 5}[s.N(5)]
+		p.EnvErrKind = s.Weighted(4, 1, 1, 1, 1)
+		p.EnvCancels = s.Chance(1, 5)
 	case stopTimeout:
 		p.CancelAfter = at
 	case stopHandshakeFIN:
